@@ -11,7 +11,11 @@ mod run;
 mod scen;
 
 fn main() {
-    std::panic::set_hook(Box::new(|_| {}));
+    if std::env::var("ABYSS_DEBUG").is_ok() {
+        std::panic::set_hook(Box::new(|i| eprintln!("panic: {}", i)));
+    } else {
+        std::panic::set_hook(Box::new(|_| {}));
+    }
     run::start_watchdog();
     let args: Vec<String> = std::env::args().collect();
     let code = scen::dispatch(&args[1..]);
